@@ -433,8 +433,10 @@ def histories(draw, fmt: str | None = None):
     stems = draw(st.permutations(HISTORY_STEMS))[:n_paths]
     written, loaded, steps = set(), set(), []
     for _ in range(draw(st.integers(2, 7))):
-        op = draw(st.sampled_from(["save", "save", "save", "load", "load", "resave", "resave"]))
-        if op == "load" and written:
+        op = draw(st.sampled_from(["save", "save", "save", "load", "load", "resave", "resave", "refused_edit"]))
+        if op == "refused_edit" and loaded:
+            steps.append({"op": "refused_edit", "from": draw(st.sampled_from(sorted(loaded)))})
+        elif op == "load" and written:
             j = draw(st.sampled_from(sorted(written)))
             steps.append({"op": "load", "path": j})
             loaded.add(j)
